@@ -57,7 +57,7 @@ func runC11(c *Ctx) {
 				}
 				nConv++
 				xt := rb.Of(cv.X, cv).String()
-				guard := plainEdges(edgesMatching(rb, "bin<>>("+xt+", 0)", "bin<>=>("+xt+", 0)", "bin<>=>("+xt+", 1)", "bin<>>("+xt+", -1)"))
+				guard := plainEdges(edgesMatching(rb, "raw:bin<>>("+xt+", 0)", "raw:bin<>=>("+xt+", 0)", "raw:bin<>=>("+xt+", 1)", "raw:bin<>>("+xt+", -1)"))
 				r.Check(mustPass(rf, blk, guard), "C11.float-to-uint.guarded", c.ipos(cv), "conversion %s(%s) executes only under a `> 0`/`>= 0` test of the same value (negative or NaN operands give an implementation-defined huge count and the worker panics)", cv.Type(), short(xt, 100))
 			}
 		}
